@@ -65,3 +65,40 @@ Definition zbe (l : bytes) : Z := Z.of_N (be_to_N l).
 (* the base point lies on the curve *)
 Definition on_curve (c : curve_consts) : bool :=
   ((n_gy c * n_gy c) mod n_p c =? (n_gx c * n_gx c * n_gx c + n_a c * n_gx c + n_b c) mod n_p c).
+
+(* ---------- the property as an executable predicate on the decoded components (T3) ---------- *)
+Open Scope N_scope.
+
+(* the curve a displayed name refers to: the text before the first space *)
+Fixpoint first_word (l : bytes) : bytes :=
+  match l with
+  | [] => []
+  | c :: r => if c =? 32 then [] else c :: first_word r
+  end.
+
+(* the base point is the curve's generator: 04 || X || Y, or 02/03 || X with the sign of Gy *)
+Definition base_is_generator (k : curve_consts) (base : bytes) : bool :=
+  match base with
+  | 4 :: xy =>
+      Nat.eqb (length xy) (2 * n_flen k) &&
+      (zbe (firstn (n_flen k) xy) =? n_gx k)%Z && (zbe (skipn (n_flen k) xy) =? n_gy k)%Z
+  | pre :: x =>
+      ((pre =? 2) || (pre =? 3)) && Nat.eqb (length x) (n_flen k) &&
+      (zbe x =? n_gx k)%Z && (Z.of_N pre =? 2 + (n_gy k) mod 2)%Z
+  | [] => false
+  end.
+
+(* prime, a, b, order and base point are those of the curve (integers); [with_prime = false] for
+   the bare primeFieldParamsMatch, which is not given the prime *)
+Definition spec_components (with_prime : bool) (k : curve_consts)
+    (prime : option Z) (a b base : bytes) (order : Z) : bool :=
+  (negb with_prime || match prime with Some z => (z =? n_p k)%Z | None => false end) &&
+  (zbe a =? n_a k)%Z && (zbe b =? n_b k)%Z && (order =? n_n k)%Z &&
+  base_is_generator k base.
+
+(* a displayed inferred name is justified by the components *)
+Definition shown_ok (shown : bytes) (prime : option Z) (a b base : bytes) (order : Z) : bool :=
+  match nist (first_word shown) with
+  | Some k => spec_components true k prime a b base order
+  | None => false
+  end.
